@@ -1506,14 +1506,17 @@ Qed.
    file_path_ok P: the path text is exactly "/" or starts with '/' followed by a byte other than '/' (every parsed file
    URL); every operation of a session keeps it.  file_session_ok P ops - computable on the old path text and the
    arguments alone - asks of every push (also inside extend) made while the path is exactly "/" that the segment is
-   skipped ("." / "..") or that the text push writes for it (seg_text: percent-encoding of the TAB/LF/CR-free argument)
-   does not start with a letter followed by ':' or '|' (root_seg_ok); pushes on longer paths and clear / pop /
-   pop_if_empty are unrestricted.  Then the session returns with_path u (session_text STFile ..) - the record of
-   C06_frame_path, as in C06_frame_segments_exact - and the new path text satisfies file_path_ok again.
+   skipped ("." / "..") or root_seg_ok: (a) flush_ok - parse_path flushes its pending text at every TAB / LF / CR of the
+   argument; no character of the argument comes behind a flush that left exactly a drive letter "C:" as the path (it
+   would get a '/' in front) - and (b) the text push writes (seg_text: percent-encoding of the TAB/LF/CR-free argument)
+   is not a letter followed by '|' (it would be rewritten to "C:").  Arguments without TAB / LF / CR meet (a).  Pushes on
+   longer paths and clear / pop / pop_if_empty are unrestricted.  Then the session returns
+   with_path u (session_text STFile ..) - the record of C06_frame_path, as in C06_frame_segments_exact - and the new
+   path text satisfies file_path_ok again.
    Sessions of push / extend only on a path longer than "/" always meet the condition (C06_file_push_only_ok).
    The condition is needed (C06_frame_segments_file_root_refuted): file:/// push("C|") gives file:///C: and
-   push("C:<TAB>x") gives file:///C:/x (two segments from one push) where push_text is "/C|" resp. "/C:x".
-   root_seg_ok is sufficient, not necessary: file:/// push("c:x") without TAB is appended verbatim but not covered. *)
+   push("C:<TAB>x") gives file:///C:/x (two segments from one push) where push_text is "/C|" resp. "/C:x";
+   push("C:"), push("c:x"), push("C<TAB>:"), push("C:<TAB>") at the root are covered (appended verbatim). *)
 From RU Require Import Proofs.C06_SegFile Proofs.C06_SegFileEx.
 
 Theorem C06_frame_segments_exact_file : forall dbg u ops u', wf_b u = true ->
@@ -1549,25 +1552,28 @@ Proof. exact file_session_example. Qed.
 
 Example C06_file_example_records :
   ft_ops = [PPush (B "b"); PPush (B "C|"); PPop]
-  /\ fr_ops = [PExtend [B "etc"; []; B "C|"]; PClear; PPush (B "1:"); PPush [99; 9; 37]]
+  /\ fr_ops = [PExtend [B "etc"; []; B "C|"]; PClear; PPush [67; 9; 58]; PPush [99; 9; 37]]
   /\ parse_url true (host_parse idna_clean) host_parse_opaque host_display None None (B "file:///tmp/a") = POk ft_url
   /\ parse_url true (host_parse idna_clean) host_parse_opaque host_display None None (B "file:///") = POk fr_url.
 Proof. split; [reflexivity|]. split; [reflexivity|]. exact file_urls_parsed. Qed.
 
-(* the root path: extend(["etc", "", "C|"]), clear, push("1:"), push("c<TAB>%") on file:/// *)
+(* the root path: extend(["etc", "", "C|"]), clear, push("C<TAB>:"), push("c<TAB>%") on file:/// *)
 Example C06_frame_segments_exact_file_root_inhabited :
   wf_b fr_url = true /\ byte_eqb (ser fr_url) (scheme_end fr_url + 1) 47 = true /\ st_of fr_url = STFile
   /\ path_bytes fr_url = B "/" /\ file_path_ok (path_bytes fr_url) = true
   /\ file_session_ok (path_bytes fr_url) fr_ops = true /\ Forall psm_op_usv fr_ops
-  /\ path_segments_session true fr_url fr_ops = Some (with_path fr_url (B "/1:/c%25"), SOk)
-  /\ session_text STFile (path_bytes fr_url) fr_ops = B "/1:/c%25"
+  /\ path_segments_session true fr_url fr_ops = Some (with_path fr_url (B "/C:/c%25"), SOk)
+  /\ session_text STFile (path_bytes fr_url) fr_ops = B "/C:/c%25"
   /\ session_text STFile (path_bytes fr_url) [PExtend [B "etc"; []; B "C|"]] = B "/etc//C|"
-  /\ root_seg_ok (B "etc") = true /\ root_seg_ok [] = true /\ root_seg_ok (B "1:") = true
-  /\ root_seg_ok (B "C|") = false /\ root_seg_ok (B "c:x") = false /\ root_seg_ok [67; 9; 58] = false.
+  /\ root_seg_ok (B "etc") = true /\ root_seg_ok [] = true /\ root_seg_ok (B "C:") = true /\ root_seg_ok (B "c:x") = true
+  /\ root_seg_ok [67; 9; 58] = true /\ root_seg_ok [67; 58; 9] = true /\ root_seg_ok (B "c|x") = true
+  /\ root_seg_ok (B "C|") = false /\ root_seg_ok [67; 9; 124] = false /\ root_seg_ok [67; 58; 9; 120] = false
+  /\ path_segments_session true fr_url [PPush (B "c:x")] = Some (with_path fr_url (B "/c:x"), SOk)
+  /\ path_segments_session true fr_url [PPush [67; 58; 9]] = Some (with_path fr_url (B "/C:"), SOk).
 Proof. exact file_root_session_example. Qed.
 
 (* the side conditions spelled out (pin of the definitions) *)
-Theorem C06_file_session_ok_unfold : forall P o ops a c r seg s segs,
+Theorem C06_file_session_ok_unfold : forall P o ops a c r seg s segs acc pend,
   file_path_ok [] = false /\ file_path_ok [a] = (a =? 47) /\ file_path_ok (a :: c :: r) = ((a =? 47) && negb (c =? 47))
   /\ file_session_ok P [] = true
   /\ file_session_ok P (o :: ops) = (op_ok P o && file_session_ok (op_text STFile P o) ops)
@@ -1576,10 +1582,15 @@ Theorem C06_file_session_ok_unfold : forall P o ops a c r seg s segs,
   /\ op_ok P (PExtend (s :: segs)) = (push_ok P s && op_ok (push_text STFile P s) (PExtend segs))
   /\ push_ok P seg = (psm_skips seg || fpi_b P || root_seg_ok seg)
   /\ fpi_b (a :: c :: r) = ((a =? 47) && negb (c =? 47)) /\ fpi_b [a] = false /\ fpi_b [] = false
-  /\ root_seg_ok seg = negb (match encode (path_set CPathSegmentSetter STFile) (utf8_encode (filter not_tnl seg)) with
-                            | x :: y :: _ => is_alpha x && ((y =? 58) || (y =? 124)) | _ => false end).
+  /\ root_seg_ok seg = (flush_ok [] [] seg
+                        && negb (match encode (path_set CPathSegmentSetter STFile) (utf8_encode (filter not_tnl seg)) with
+                                 | [x; y] => is_alpha x && (y =? 124) | _ => false end))
+  /\ flush_ok acc pend [] = true
+  /\ flush_ok acc pend (a :: r)
+     = (if is_tnl a then flush_ok (acc ++ rev pend) [] r
+        else negb (is_normalized_wdl (encode (path_set CPathSegmentSetter STFile) (utf8_encode acc))) && flush_ok acc (a :: pend) r).
 Proof. intros. repeat split; reflexivity. Qed.
-Check C06_file_session_ok_unfold : forall P o ops a c r seg s segs,
+Check C06_file_session_ok_unfold : forall P o ops a c r seg s segs acc pend,
   file_path_ok [] = false /\ file_path_ok [a] = (a =? 47) /\ file_path_ok (a :: c :: r) = ((a =? 47) && negb (c =? 47))
   /\ file_session_ok P [] = true
   /\ file_session_ok P (o :: ops) = (op_ok P o && file_session_ok (op_text STFile P o) ops)
@@ -1588,8 +1599,13 @@ Check C06_file_session_ok_unfold : forall P o ops a c r seg s segs,
   /\ op_ok P (PExtend (s :: segs)) = (push_ok P s && op_ok (push_text STFile P s) (PExtend segs))
   /\ push_ok P seg = (psm_skips seg || fpi_b P || root_seg_ok seg)
   /\ fpi_b (a :: c :: r) = ((a =? 47) && negb (c =? 47)) /\ fpi_b [a] = false /\ fpi_b [] = false
-  /\ root_seg_ok seg = negb (match encode (path_set CPathSegmentSetter STFile) (utf8_encode (filter not_tnl seg)) with
-                            | x :: y :: _ => is_alpha x && ((y =? 58) || (y =? 124)) | _ => false end).
+  /\ root_seg_ok seg = (flush_ok [] [] seg
+                        && negb (match encode (path_set CPathSegmentSetter STFile) (utf8_encode (filter not_tnl seg)) with
+                                 | [x; y] => is_alpha x && (y =? 124) | _ => false end))
+  /\ flush_ok acc pend [] = true
+  /\ flush_ok acc pend (a :: r)
+     = (if is_tnl a then flush_ok (acc ++ rev pend) [] r
+        else negb (is_normalized_wdl (encode (path_set CPathSegmentSetter STFile) (utf8_encode acc))) && flush_ok acc (a :: pend) r).
 Print Assumptions C06_file_session_ok_unfold.
 
 (* sessions of push / extend only, on a path longer than "/" (fpi_b), meet the side condition - every &str argument *)
